@@ -21,7 +21,7 @@ EXPLANATION = (
     ' Rounds 7-8: R1 also: the change test is reached on every normal path (no other condition decides first whether a change is reported).'
 )
 ASSUMPTIONS = ["dataclass __eq__ compares all fields (the records are @dataclass without eq=False)", "set.add is idempotent, set.discard removes"]
-FLOORS = {"C12.R1": 27, "C12.R2": 9, "C12.R3": 8, "C12.R4": 20, "C12.R5": 3, "C12.R6": 1, "C12.R7": 1, "C12.R8": 1}
+FLOORS = {"C12.R1": 27, "C12.R2": 9, "C12.R3": 8, "C12.R4": 20, "C12.R5": 3, "C12.R6": 1, "C12.R7": 1, "C12.R8": 1, "C12.R9": 1}
 
 UPDATE_FUNCS = [
     (AT4_API, "At4Zone", "update_"),
@@ -46,6 +46,10 @@ def run(ctx):
 
     from . import c10
 
+    from . import c07
+
+    reuse(ctx, "C12.R9", [c07.r2, c07.r7], "a frame that is being delivered is delivered to the end: a connection reset issued by another task cancels nothing (the read loop finishes the frame, then finds its reader gone), and nothing a subscriber raises leaves the notifier (C07.R2/R7)",
+          keep=lambda o: "cancels-nothing" in o.construct or "isolation" in o.construct or o.verdict != "HOLDS")
     reuse(ctx, "C12.R8", [c10.r4], "every record of a frame is dispatched to its own entity (unknown ids are skipped, the loop goes on), so every change reaches the subscribers of its entity (C10.R4)")
     reuse(ctx, "C12.R7", [lambda c: c09.r5(c, AT4_API), lambda c: c09.r5(c, AT5_API)], "each air-conditioner is given exactly the zones the console assigns to it, so zone changes reach the subscribers of the owning air-conditioner and of no other (C09.R5)")
 
